@@ -3,8 +3,23 @@ package props
 import (
 	"regexp"
 	"sort"
+
+	"lalverif/gen"
+
+	"github.com/q191201771/lal/pkg/base"
 )
 
 var reDigitsP = regexp.MustCompile(`[0-9]+`)
 
 func sortStrings(s []string) { sort.Strings(s) }
+
+// baseMsg converts a generated RTMP message into lal's message type (for FeedRtmpMsg).
+func baseMsg(m gen.EsMsg) base.RtmpMsg {
+	csid := 6
+	if m.Type == 8 {
+		csid = 4
+	} else if m.Type == 18 {
+		csid = 5
+	}
+	return base.RtmpMsg{Header: base.RtmpHeader{Csid: csid, MsgLen: uint32(len(m.Payload)), MsgTypeId: m.Type, MsgStreamId: 1, TimestampAbs: m.Ts}, Payload: m.Payload}
+}
